@@ -601,7 +601,7 @@ class ParticleSquare(JMCFunction):
         if self.args["align"] not in {"corner", "center"}:
             raise JMCSyntaxException(
                 f"Unrecognized alignment, '{self.args['align']}' Available alignments are 'corner' and 'center'",
-                self.raw_args["mode"].token,
+                self.raw_args["align"].token,
                 self.tokenizer,
             )
 
@@ -700,7 +700,7 @@ class ParticleCube(JMCFunction):
         if self.args["align"] not in {"corner", "center"}:
             raise JMCSyntaxException(
                 f"Unrecognized alignment, '{self.args['align']}' Available alignments are 'corner' and 'center'",
-                self.raw_args["mode"].token,
+                self.raw_args["align"].token,
                 self.tokenizer,
             )
 
